@@ -158,7 +158,8 @@ def check(P, R):
     # ---- c
     po = P.func(f'{BM}:BodyMixin.POST')
     g, rd = po.cfg, po.rd
-    fors = [n for n in walk_shallow(po.node) if isinstance(n, ast.For) and any(isinstance(x, ast.Call) and call_attr(x) == 'iter_items' for x in ast.walk(n.iter))]
+    fors = [n for n in walk_shallow(po.node) if isinstance(n, ast.For) and any(
+        isinstance(x, ast.Call) and call_attr(x) == 'iter_items' for x in rd.closure_nodes(n.iter, g.nodes_for(n)[0]))]
     R.require(len(fors) == 1, 'POST: item loop not found')
     lp = fors[0]
     item = lp.target.id
